@@ -94,12 +94,15 @@ def kseq(n, a, b, signed=True):
     return out
 
 
-def build_array(cls, n, a, b, signed=True, masked=False):
+def build_array(cls, n, a, b, signed=True, masked=False, ramp=False):
     """array of class `cls` with n elements; masked=True builds it as a masked reference into a 2n-element array"""
     t = ARR[cls]
     if t["base"] == "uint":
         signed = False
     ks = kseq(n, a, b, signed)
+    if ramp:
+        # strictly increasing values: the last element is the unique maximum, the first the unique minimum
+        ks = [i + 1 + (a % 3) for i in range(n)]
     if cls == "BoolArray" and not signed:
         ks = [1] * n  # as an argument: all true (never a zero divisor after implicit conversion)
     if not masked:
@@ -118,11 +121,11 @@ def build_array(cls, n, a, b, signed=True, masked=False):
     return base[m], base
 
 
-def build_arg(kind, n, a, b):
+def build_arg(kind, n, a, b, ramp=False):
     """kind: 'arr:<Class>' | 'mask:<Class>' | 'elem:<Class>' | 'py:float' | 'py:int' -> (value, keepalive)"""
     tag, _, what = kind.partition(":")
     if tag == "arr":
-        return build_array(what, n, a, b, signed=False)
+        return build_array(what, n, a, b, signed=False, ramp=ramp)
     if tag == "mask":
         return build_array(what, n, a, b, signed=False, masked=True)
     if tag == "elem":
@@ -314,14 +317,16 @@ def clone(x):
         return x
 
 
-def evaluate(entry, n, a, b, self_masked=False):
+def evaluate(entry, n, a, b, self_masked=False, rhs_full=False):
+    """rhs_full: (masked subject, in-place operator) give the array argument the UNMASKED length of the subject's
+    base array (2n): element i of the view then pairs with argument[raw index of i] = argument[2i]"""
     CTX["ab"] = (a, b)
     """run one catalogued entry on generated data; returns dict(result=canonical list, self_after=..., expected=[...] or None)"""
     tag, _, what = entry["subject"].partition(":")
     keep = []
     args, kinds = [], entry["args"]
     for j, k in enumerate(kinds):
-        v, ka = build_arg(k, n, a + j + 1, b + 2 * j)
+        v, ka = build_arg(k, 2 * n if (rhs_full and k.startswith("arr:")) else n, a + j + 1, b + 2 * j, ramp=(entry["kind"] == "subject-inplace"))
         args.append(v)
         keep.append(ka)
     if tag == "method":
@@ -340,7 +345,8 @@ def evaluate(entry, n, a, b, self_masked=False):
     for v, k in zip(args, kinds):
         if k.startswith(("arr:", "mask:")):
             cls = k.partition(":")[2]
-            arg_elems.append([clone(v[i]) if ARR[cls]["base"] == "obj" else v[i] for i in range(n)])
+            step = 2 if (rhs_full and k.startswith("arr:")) else 1
+            arg_elems.append([clone(v[step * i]) if ARR[cls]["base"] == "obj" else v[step * i] for i in range(n)])
         else:
             arg_elems.append(v)
     before = snapshot(subj) if subj is not None else None
